@@ -36,6 +36,16 @@ def inserted : List (Op κ ν) → List (κ × ν)
   | .ins k v :: ops => (k, v) :: inserted ops
   | _ :: ops => inserted ops
 
+/-- pairs that ENTERED the tree during an operation sequence started on the map `l`, in call order.  An insert whose node
+    allocation fails (`insf`) hands its pair over only when an equal key is stored (replace path: no node is allocated);
+    for a new key nothing enters — the pair stays the caller's.  Follows the spec state, call by call. -/
+def entered (cmp : κ → κ → Ordering) : List (κ × ν) → List (Op κ ν) → List (κ × ν)
+  | _, [] => []
+  | l, .ins k v :: ops => (k, v) :: entered cmp (specStep cmp l (.ins k v)).1 ops
+  | l, .insf k v :: ops =>
+    (if (SM.find cmp l k).isSome then [(k, v)] else []) ++ entered cmp (specStep cmp l (.insf k v)).1 ops
+  | l, op :: ops => entered cmp (specStep cmp l op).1 ops
+
 /-- objects handed to the destroy notifiers by a sequence of calls, in call order -/
 def destroyed : List (Out κ ν) → List (κ × ν)
   | [] => []
